@@ -17,9 +17,11 @@ LEVEL = "proof"
 TRUSTED = ["SV.PyOp / SV.PyMode (Model/Discretise.lean) as the meaning of Python's operator functions and of `not in [...]`",
            "Model/C13.lean: list-level model of .sum(dim=member), apply_weights, .mean(dim) (skipna), max/min guards",
            "xarray broadcasting / reductions (compared, not modelled beyond flattening)"]
-ASSUMPTIONS = ["members, observations, thresholds and weights are dyadic (k/4) so comparisons are exact; quotients compared to 1e-9",
-               "Dataset inputs and dask arrays are not generated; gather_dimensions is C01's subject (only 'all reduced', "
-               "'cases preserved' and one-dimension reductions are exercised here)"]
+ASSUMPTIONS = ["members, observations, thresholds and weights are dyadic (k/4) so comparisons are exact; quotients compared to 1e-9; "
+               "the resolution-limit probes use arbitrary float64 / float32 / int64 values, sent to Lean as the exact rational the "
+               "storage holds (guards and event counts are decided exactly; float32-stored brier_score values compared to 2e-6)",
+               "dask arrays are not generated; Dataset inputs only for brier_score (one and two variables); gather_dimensions is "
+               "C01's subject (only 'all reduced', 'cases preserved' and one-dimension reductions are exercised here)"]
 MANIFEST = dict(
     level="proof",
     text="Kernel-checked Lean theorems about definitions regenerated from brier_impl.py / standard_impl.py / utils.py on every "
@@ -28,13 +30,15 @@ MANIFEST = dict(
          "counts over ensembles of any size, observed event via the translated comparative_discretise) IS the definition for "
          "each of the four operators; >= vs < and > vs <= give identical scores for every threshold incl. ties and NaN "
          "members; correction in [0, 1/(4(m-1))]; other operators rejected; brier_score kernel = mse kernel = squared "
-         "difference, range guard and check_binary set characterised, checked/unchecked results = mean squared difference. "
+         "difference, range guard and check_binary set characterised (no tolerance: any excursion beyond 0 or 1 is rejected), "
+         "checked/unchecked results = mean squared difference. "
          "Tied to the code by the translator, a differential correspondence (incl. the exhaustive i<=m<=6 grid) and an "
          "independent oracle (Lean Spec only + operator complementarity between implementation runs).",
     note="Trusted: Lean kernel; propext/Classical.choice/Quot.sound; py2lean + tools/gen/{Brier,Discretise}.py; SV.Fl (IEEE "
          "minus rounding, overflow, signed zero); SV.PyOp/PyMode; the list-level hand model Model/C13.lean (sum over the "
          "member dimension as a count, apply_weights, mean(skipna) over cases, nan-skipping max/min feeding the range guard, "
-         "monotone-threshold guard), compared with the implementation, not translated. Not modelled: Dataset/dask inputs, "
+         "monotone-threshold guard), compared with the implementation, not translated. Not modelled: dask inputs (Datasets: brier_score only, "
+         "flattened over variables), "
          "the dimension bookkeeping of gather_dimensions (C01), threshold_dim name clashes. Float rounding: scores that are "
          "exactly 0 in rationals may be ~1e-17 in floats (within the 1e-9 tolerance).",
     technique="Lean 4 theorems over translator-regenerated definitions + differential correspondence + property oracle "
@@ -42,7 +46,12 @@ MANIFEST = dict(
               "tools/gen/_fallback_*.lean for that definition, records it as inapplicable, and the correspondence carries it)",
     design="6/C13")
 RULE = ("ensembles of 1-5 members with 50 % of member values and 40 % of observations placed exactly on a threshold, NaN members "
-        "(incl. all-NaN and single valid member), 1-3 thresholds, 4 operators x fair on/off/default x weights; distinct = "
+        "(incl. all-NaN and single valid member), 1-3 thresholds, 4 operators x fair on/off/default x weights; plus deterministic "
+        "boundary probes of every guard at the resolution limit of the storage format: forecasts / observations one float64 or "
+        "float32 step outside and inside [0,1] resp. {0,1} (denormals, -1e-300, 0.3-0.1-0.2, +-2^-54, 1+2^-52, 1+2^-23, -0.0, "
+        "int64 2/-1) as DataArray, one- and two-variable Dataset, alone / hidden among valid values / with NaNs, check_args on, "
+        "omitted and off; ensemble members and observations one step beside the threshold, threshold lists increasing / "
+        "constant / decreasing by one step; distinct = "
         "distinct canonical input; non-trivial = at least one non-NaN score and not in the malformed stream")
 
 NAN = float("nan")
@@ -111,12 +120,13 @@ def run_ens(case, op=None):
     """returns ('ok', cases[case][thr], mean[thr]) | ('err', class)"""
     from scores.probability import brier_score_for_ensemble
     op = op or case["op"]
-    f = np.array(case["fcst"], dtype=float)
+    dt = DTYPES[case.get("dtype") or "f8"]     # storage format; the VALUES are the exact contents of that storage
+    f = np.array(case["fcst"], dtype=dt)
     if case["member_first"]:
         fx = xr.DataArray(f.T.copy(), dims=[fresh("member"), fresh("case")])
     else:
         fx = xr.DataArray(f, dims=[fresh("case"), fresh("member")])
-    ox = xr.DataArray(np.array(case["obs"], dtype=float), dims=[fresh("case")])
+    ox = xr.DataArray(np.array(case["obs"], dtype=dt), dims=[fresh("case")])
     thr = case["thr"]
     if case["scalar_thr"]:
         thr = int(thr[0]) if float(thr[0]).is_integer() and case.get("int_thr") else thr[0]
@@ -163,7 +173,10 @@ def ens_matches(res, m):
 
 
 def ens_desc(case):
-    return {k: case.get(k) for k in ("fcst", "obs", "thr", "scalar_thr", "op", "fair", "weights", "member_first", "thr_dim")}
+    d = {k: case.get(k) for k in ("fcst", "obs", "thr", "scalar_thr", "op", "fair", "weights", "member_first", "thr_dim")}
+    if case.get("dtype"):
+        d["dtype"] = case["dtype"]
+    return d
 
 
 def ens_tags(case):
@@ -204,10 +217,30 @@ def gen_brier_case(rng):
             "red": rng.choice([None, None, "all", [fresh("a")], [fresh("b")]])}
 
 
+def ok_var(case):
+    """the second, always valid, variable of a two-variable Dataset forecast (container "ds2"): same shape as the probed one"""
+    nb = len(case["f"][0])
+    vals = (0.0, 1.0, 1.0, 0.0) if case.get("dtype") == "i8" else (0.0, 1.0, 0.5, 0.25)
+    return [[vals[(i * nb + j) % 4] for j in range(nb)] for i in range(len(case["f"]))]
+
+
 def run_brier(case):
+    """container: "da" DataArray | "ds" one-variable Dataset | "ds2" Dataset {"ok": valid values, "bad": case["f"]};
+    dtype: storage format of fcst and obs ("f8" | "f4" | "i8" fcst only).  Values of a Dataset result: "bad"/"v" first,
+    then "ok"."""
     from scores.probability import brier_score
-    fx = xr.DataArray(np.array(case["f"], dtype=float), dims=[fresh("a"), fresh("b")])
-    ox = xr.DataArray(np.array(case["o"], dtype=float), dims=[fresh("a"), fresh("b")])
+    cont = case.get("container") or "da"
+    dt = DTYPES[case.get("dtype") or "f8"]
+    odt = float if dt is np.int64 else dt
+
+    def da(v, d):
+        return xr.DataArray(np.array(v, dtype=d), dims=[fresh("a"), fresh("b")])
+    fx, ox = da(case["f"], dt), da(case["o"], odt)
+    if cont == "ds":
+        fx, ox = xr.Dataset({fresh("v"): fx}), xr.Dataset({fresh("v"): ox})
+    elif cont == "ds2":
+        fx = xr.Dataset({fresh("ok"): da(ok_var(case), dt), fresh("bad"): fx})
+        ox = xr.Dataset({fresh("ok"): ox, fresh("bad"): ox.copy()})
     kw = {}
     if case["w"] is not None:
         kw["weights"] = xr.DataArray(np.array(case["w"], dtype=float), dims=[fresh("a"), fresh("b")])
@@ -218,29 +251,40 @@ def run_brier(case):
     try:
         with np.errstate(all="ignore"):
             out = brier_score(fx, ox, **kw)
-        return ("ok", np.asarray(out.values, dtype=float).ravel().tolist(), tuple(out.dims))
+        if cont == "da":
+            return ("ok", np.asarray(out.values, dtype=float).ravel().tolist(), tuple(out.dims))
+        names = ["v"] if cont == "ds" else ["bad", "ok"]
+        if not isinstance(out, xr.Dataset) or sorted(out.data_vars) != sorted(names):
+            return ("err", f"shape: result {type(out).__name__} {list(getattr(out, 'data_vars', []))}")
+        return ("ok", [x for k in names for x in np.asarray(out[k].values, dtype=float).ravel().tolist()], tuple(out[names[0]].dims))
     except Exception as ex:  # noqa: BLE001
         return ("err", core.exc_class(ex))
 
 
 def brier_fibres(case):
-    """the flattened (f, o, w) lists of each output cell, in output order"""
-    f, o, w = np.array(case["f"], dtype=float), np.array(case["o"], dtype=float), case["w"]
+    """the flattened (f, o, w) lists of each output cell, in output order (for "ds2": the probed variable, then "ok")"""
+    o, w = np.array(case["o"], dtype=float), case["w"]
     w = None if w is None else np.array(w, dtype=float)
     red = case["red"]
+    shape = o.shape
     if red is None or red == "all":
-        idx = [np.ones(f.shape, dtype=bool)]
+        idx = [np.ones(shape, dtype=bool)]
     elif red[0] == "a":
-        idx = [np.array([[j == k for j in range(f.shape[1])] for _ in range(f.shape[0])]) for k in range(f.shape[1])]
+        idx = [np.array([[j == k for j in range(shape[1])] for _ in range(shape[0])]) for k in range(shape[1])]
     else:
-        idx = [np.array([[i == k for _ in range(f.shape[1])] for i in range(f.shape[0])]) for k in range(f.shape[0])]
-    return [(f[m].tolist(), o[m].tolist(), None if w is None else w[m].tolist()) for m in idx]
+        idx = [np.array([[i == k for _ in range(shape[1])] for i in range(shape[0])]) for k in range(shape[0])]
+    out = []
+    for fv in [case["f"]] + ([ok_var(case)] if case.get("container") == "ds2" else []):
+        f = np.array(fv, dtype=float)
+        out += [(f[m].tolist(), o[m].tolist(), None if w is None else w[m].tolist()) for m in idx]
+    return out
 
 
 def brier_ops(case, opname):
     check = True if case["check"] == "omit" else case["check"]
-    ff = [x for r in case["f"] for x in r]
-    oo = [x for r in case["o"] for x in r]
+    two = case.get("container") == "ds2"
+    ff = [x for r in case["f"] for x in r] + ([x for r in ok_var(case) for x in r] if two else [])
+    oo = [x for r in case["o"] for x in r] * (2 if two else 1)
     ops = [{"op": opname, "args": {"fcst": fls(ff), "obs": fls(oo), "weights": None, "check": check}}]   # guards on the whole
     for f, o, w in brier_fibres(case):
         ops.append({"op": opname, "args": {"fcst": fls(f), "obs": fls(o), "weights": None if w is None else fls(w),
@@ -249,7 +293,188 @@ def brier_ops(case, opname):
 
 
 def brier_desc(case):
-    return {k: case[k] for k in ("f", "o", "w", "check", "red")}
+    d = {k: case[k] for k in ("f", "o", "w", "check", "red")}
+    for k in ("container", "dtype", "probe"):
+        if case.get(k):
+            d[k] = case[k]
+    return d
+
+
+def brier_tags(case):
+    t = {"check": str(case["check"])}
+    for k in ("container", "dtype"):
+        if case.get(k):
+            t[k] = case[k]
+    if case.get("probe"):
+        t["probe"] = case["probe"].rsplit(":", 1)[0]
+    return t
+
+
+def brier_close(case, x, v):
+    """float32 storage: the implementation computes in float32 (relative error ~1e-7 per operation)"""
+    if case.get("dtype") == "f4":
+        return core.close(x, v, rtol=2e-6, atol=1e-9)
+    return core.close(x, v)
+
+
+# ----------------------------------------------------------------------------- probes at the resolution limit of the format
+DTYPES = {"f8": np.float64, "f4": np.float32, "i8": np.int64}
+F32 = np.float32
+
+
+def _f32(x):
+    return float(F32(x))
+
+
+# (label, value, storage formats in which the value is exactly representable)
+OUTSIDE = [
+    ("nextafter64(0,-1) = -5e-324", -5e-324, ("f8",)),
+    ("-2 denormal steps", -1e-323, ("f8",)),
+    ("-largest denormal", -2.225073858507201e-308, ("f8",)),
+    ("-smallest normal", -2.2250738585072014e-308, ("f8",)),
+    ("-1e-300", -1e-300, ("f8",)),
+    ("-2^-1000", -2.0 ** -1000, ("f8",)),
+    ("0.3-0.1-0.2", 0.3 - 0.1 - 0.2, ("f8",)),
+    ("0.1*3-0.3 negated", -(0.1 * 3 - 0.3), ("f8",)),
+    ("-1e-17", -1e-17, ("f8",)),
+    ("-2^-55", -2.0 ** -55, ("f8", "f4")),
+    ("-2^-54 (half ulp of 0.5)", -2.0 ** -54, ("f8", "f4")),
+    ("-(2^-54 + 2^-106)", -(2.0 ** -54) * (1 + 2.0 ** -52), ("f8",)),
+    ("-2^-53", -2.0 ** -53, ("f8", "f4")),
+    ("-2^-52", -2.0 ** -52, ("f8", "f4")),
+    ("-1e-9", -1e-9, ("f8",)),
+    ("nextafter32(0,-1) = -1.4e-45", -_f32(1e-45), ("f8", "f4")),
+    ("-smallest normal32", -_f32(1.1754944e-38), ("f8", "f4")),
+    ("-2^-26 (quarter ulp32 of 0.5)", -2.0 ** -26, ("f8", "f4")),
+    ("-2^-25 (half ulp32 of 0.5)", -2.0 ** -25, ("f8", "f4")),
+    ("-3e-8 in float32", -_f32(3e-8), ("f8", "f4")),
+    ("-2^-24", -2.0 ** -24, ("f8", "f4")),
+    ("nextafter64(1,2) = 1+2^-52", 1.0 + 2.0 ** -52, ("f8",)),
+    ("1+2^-51", 1.0 + 2.0 ** -51, ("f8",)),
+    ("1+1e-9", 1.0 + 1e-9, ("f8",)),
+    ("nextafter32(1,2) = 1+2^-23", 1.0 + 2.0 ** -23, ("f8", "f4")),
+    ("1+2^-22", 1.0 + 2.0 ** -22, ("f8", "f4")),
+]
+OUTSIDE_HUGE = [("float64 max", 1.7976931348623157e308, ("f8",)), ("-float64 max", -1.7976931348623157e308, ("f8",)),
+                ("float32 max", _f32(3.4028235e38), ("f8", "f4")), ("-float32 max", -_f32(3.4028235e38), ("f8", "f4"))]
+INSIDE = [
+    ("+0.0", 0.0, ("f8", "f4")), ("-0.0", -0.0, ("f8", "f4")), ("1.0", 1.0, ("f8", "f4")),
+    ("5e-324", 5e-324, ("f8",)), ("1e-300", 1e-300, ("f8",)), ("smallest normal", 2.2250738585072014e-308, ("f8",)),
+    ("2^-54", 2.0 ** -54, ("f8", "f4")), ("-(0.3-0.1-0.2)", -(0.3 - 0.1 - 0.2), ("f8",)),
+    ("nextafter64(1,0) = 1-2^-53", 1.0 - 2.0 ** -53, ("f8",)), ("1-2^-52", 1.0 - 2.0 ** -52, ("f8",)),
+    ("nextafter32(0,1) = 1.4e-45", _f32(1e-45), ("f8", "f4")), ("2^-26", 2.0 ** -26, ("f8", "f4")),
+    ("nextafter32(1,0) = 1-2^-24", 1.0 - 2.0 ** -24, ("f8", "f4")), ("0.5+2^-53", 0.5 + 2.0 ** -53, ("f8",)),
+    ("0.5-2^-54", 0.5 - 2.0 ** -54, ("f8",)),
+]
+VALID_F = [0.0, 0.25, 0.5, 0.75, 1.0]
+
+
+def gen_brier_probes(rng):
+    """every boundary value x container x storage x {alone, hidden among valid values, hidden with NaNs}; the position of
+    the probed value, the reduction, the weights and check_args=True/omitted are drawn"""
+    out = []
+
+    def place(v, layout, slot, dtype):
+        if layout == "alone":
+            na, nb = 1, 1
+        else:
+            na, nb = rng.choice([(1, 3), (2, 2), (3, 2), (2, 3), (3, 3)])
+        f = [[rng.choice(VALID_F) for _ in range(nb)] for _ in range(na)]
+        o = [[rng.choice([0.0, 1.0]) for _ in range(nb)] for _ in range(na)]
+        cells = [(i, j) for i in range(na) for j in range(nb)]
+        pi, pj = rng.choice(cells)
+        if layout == "nans" and dtype != "i8":
+            for (i, j) in cells:
+                if (i, j) != (pi, pj) and rng.random() < 0.4:
+                    (f if rng.random() < 0.6 else o)[i][j] = NAN
+            qi, qj = rng.choice([c for c in cells if c != (pi, pj)])
+            f[qi][qj] = NAN                                            # at least one NaN forecast beside the probe
+        (f if slot == "f" else o)[pi][pj] = v
+        if slot == "o":
+            f[pi][pj] = rng.choice(VALID_F)
+        return f, o
+
+    def add(label, v, slot, dtype, cont, layout, check):
+        f, o = place(v, layout, slot, dtype)
+        w = None
+        if rng.random() < 0.25:
+            w = [[rng.choice([0.5, 1.0, 2.0, 0.25]) for _ in row] for row in f]
+        out.append({"f": f, "o": o, "w": w, "check": check, "red": rng.choice([None, None, "all", [fresh("a")], [fresh("b")]]),
+                    "container": cont, "dtype": dtype, "probe": f"{slot}:{label}:{layout}"})
+
+    for label, v, fmts in OUTSIDE + INSIDE:
+        for dtype in fmts:
+            for cont in ("da", "ds", "ds2"):
+                for layout in ("alone", "hidden", "nans"):
+                    add(label, v, "f", dtype, cont, layout, rng.choice([True, "omit"]))
+            # the unchecked path scores the exact values, whatever they are
+            add(label, v, "f", dtype, rng.choice(["da", "ds", "ds2"]), rng.choice(["alone", "hidden", "nans"]), False)
+    for label, v, fmts in OUTSIDE_HUGE:
+        for dtype in fmts:
+            for cont in ("da", "ds2"):
+                add(label, v, "f", dtype, cont, rng.choice(["alone", "hidden", "nans"]), rng.choice([True, "omit"]))
+    # observations: {0, 1} exactly (−0.0 is 0); one resolution step away is not binary
+    for label, v, fmts in OUTSIDE + INSIDE:
+        for dtype in fmts:
+            add(label, v, "o", dtype, rng.choice(["da", "ds", "ds2"]), rng.choice(["alone", "hidden", "nans"]),
+                rng.choice([True, "omit"]))
+    # integer storage: the value of an int64 1 is 1
+    for bad in (None, 2, -1, 3):
+        for cont in ("da", "ds", "ds2"):
+            for layout in ("alone", "hidden"):
+                f, o = place(0.0 if bad is None else float(bad), layout, "f", "i8")
+                f = [[float(round(x)) for x in row] for row in f]
+                out.append({"f": f, "o": o, "w": None, "check": rng.choice([True, "omit", False] if bad is None else [True, "omit"]),
+                            "red": rng.choice([None, "all", [fresh("a")]]), "container": cont, "dtype": "i8",
+                            "probe": f"f:int64 {bad}:{layout}"})
+    return out
+
+
+def _step(x, up, dtype):
+    dt = DTYPES[dtype]
+    return float(np.nextafter(dt(x), dt(np.inf if up else -np.inf)))
+
+
+THR_BASES = [0.0, 1.0, 0.5, 0.1, 0.3 - 0.1 - 0.2, 5e-324, -5e-324, 1e-300, -2.2250738585072014e-308, 1e300, -0.25, 3.0]
+
+
+def gen_ens_probes(rng, n):
+    """brier_score_for_ensemble at the resolution limit: members and observations one step of the storage format beside the
+    threshold; threshold lists that increase / stay / decrease by one step (the monotonicity guard)"""
+    out = []
+    for _ in range(n):
+        dtype = rng.choice(["f8", "f8", "f4"])
+        t = rng.choice(THR_BASES)
+        if dtype == "f4":
+            t = _f32(t) if abs(t) < 1e38 else 1.0
+
+        def near(x):
+            return rng.choice([x, x, _step(x, True, dtype), _step(x, False, dtype)])
+        r = rng.random()
+        if r < 0.35:
+            thr = [t]
+        elif r < 0.6:
+            thr = [t, _step(t, True, "f8")]
+        elif r < 0.7:
+            thr = [_step(t, False, "f8"), t, t, _step(t, True, "f8")]
+        elif r < 0.85:
+            thr = [t, _step(t, False, "f8")]                            # decreasing by one step: must be rejected
+        else:
+            thr = [_step(t, False, "f8"), _step(t, True, "f8"), t]      # last step decreasing
+        if 0.0 in thr and rng.random() < 0.3:
+            thr = [-0.0 if (x == 0.0 and rng.random() < 0.5) else x for x in thr]
+        ncase, nmem = rng.choice([1, 2, 3]), rng.choice([1, 2, 3, 4])
+        fc = [[NAN if rng.random() < 0.15 else near(t if dtype == "f4" else rng.choice(thr)) for _ in range(nmem)] for _ in range(ncase)]
+        ob = [NAN if rng.random() < 0.1 else near(t if dtype == "f4" else rng.choice(thr)) for _ in range(ncase)]
+        out.append({"fcst": fc, "obs": ob, "thr": thr, "scalar_thr": len(thr) == 1 and rng.random() < 0.5, "op": rng.choice(list(COMPL)),
+                    "fair": rng.choice([True, False, "omit"]), "weights": None, "member_first": rng.random() < 0.3,
+                    "malformed": None, "thr_dim": rng.choice([None, None, "thr"]), "dtype": dtype})
+    return out
+
+
+def thr_monotone(thr):
+    """exact: python float comparison is a comparison of the values"""
+    return all(a <= b for a, b in zip(thr, thr[1:]))
 
 
 # ----------------------------------------------------------------------------- correspondence
@@ -261,6 +486,7 @@ def correspondence(ctx):
         c["int_thr"] = rng.random() < 0.5
         c["default_op"] = rng.random() < 0.5
         cases.append(c)
+    cases += gen_ens_probes(rng, ctx.n(80, 1500))
     model = core.run_driver("C13", [{"op": "c13.ens", "args": ens_args(c)} for c in cases])
     for c, m in zip(cases, model):
         res = run_ens(c)
@@ -268,6 +494,8 @@ def correspondence(ctx):
                  and any(not math.isnan(x) for r in res[1] for x in r))
         t = ens_tags(c)
         ctx.tag("malformed:" + c["malformed"] if c["malformed"] else f"m:{t['m']}")
+        if c.get("dtype"):
+            ctx.tag("ens-resolution-probe:" + c["dtype"] + (":decreasing-thresholds" if not thr_monotone(c["thr"]) else ""))
         ctx.tag(f"op:{c['op']}")
         if not ens_matches(res, m):
             ctx.fail("ensemble-vs-translated-model", "correspondence", "probability.brier_score_for_ensemble", "value",
@@ -290,7 +518,7 @@ def correspondence(ctx):
             ctx.fail("per-case-formula-grid", "correspondence", "probability.brier_score_for_ensemble", "per-case-value",
                      {"i": i, "m": m, "y": y, "fair": fair}, observed=got, expected=r, tags={"m": str(m), "fair": str(fair)})
     # brier_score
-    bcs = [gen_brier_case(rng) for _ in range(ctx.n(200, 4000))]
+    bcs = [gen_brier_case(rng) for _ in range(ctx.n(200, 4000))] + gen_brier_probes(rng)
     ops, spans = [], []
     for c in bcs:
         o = brier_ops(c, "c13.brier")
@@ -305,10 +533,10 @@ def correspondence(ctx):
         if "err" in ms[0]:
             good = res == ("err", ms[0]["err"])
         else:
-            good = res[0] == "ok" and len(res[1]) == n - 1 and all("ok" in m and core.close(x, m["ok"]) for x, m in zip(res[1], ms[1:]))
+            good = res[0] == "ok" and len(res[1]) == n - 1 and all("ok" in m and brier_close(c, x, m["ok"]) for x, m in zip(res[1], ms[1:]))
         if not good:
             ctx.fail("brier-vs-translated-model", "correspondence", "probability.brier_score", "value", brier_desc(c),
-                     observed=res, expected=ms, tags={"check": str(c["check"])})
+                     observed=res, expected=ms, tags=brier_tags(c))
 
 
 # ----------------------------------------------------------------------------- the property itself
@@ -316,6 +544,14 @@ def oracle_ens_case(ctx, batch, c, spec):
     res = run_ens(c)
     tags = ens_tags(c)
     site = "probability.brier_score_for_ensemble"
+    if c.get("dtype"):
+        tags["dtype"] = c["dtype"]
+    if not thr_monotone(c["thr"]):         # documented: ValueError if the thresholds are not monotonically increasing
+        if res != ("err", "ValueError"):
+            ctx.fail(batch, "property", site, "decreasing-thresholds-not-rejected", ens_desc(c), observed=res, expected="ValueError",
+                     tags=tags)
+            return False
+        return True
     if res[0] != "ok":
         ctx.fail(batch, "property", site, "exception", ens_desc(c), observed=res[1], expected="scores", tags=tags)
         return False
@@ -340,18 +576,18 @@ def oracle_brier_case(ctx, batch, c, rows):
     site = "probability.brier_score"
     check = True if c["check"] == "omit" else c["check"]
     accepted = rows[0]["accepted"]
-    tags = {"check": str(c["check"]), "accepted": accepted}
+    tags = dict(brier_tags(c), accepted=accepted)
     if check and not accepted:
         if res != ("err", "ValueError"):
             ctx.fail(batch, "property", site, "invalid-input-not-rejected", brier_desc(c), observed=res, expected="ValueError",
-                     tags=tags, theorem="brier_guards")
+                     tags=tags, theorem="range_guard_list / binary_guard / accepted_iff")
             return False
         return True
     if res[0] != "ok":
         ctx.fail(batch, "property", site, "exception", brier_desc(c), observed=res[1], expected="mean squared difference",
                  tags=tags, theorem="brier_guards")
         return False
-    if len(res[1]) != len(rows) - 1 or not all(core.close(x, r["value"]) for x, r in zip(res[1], rows[1:])):
+    if len(res[1]) != len(rows) - 1 or not all(brier_close(c, x, r["value"]) for x, r in zip(res[1], rows[1:])):
         ctx.fail(batch, "property", site, "not-mean-squared-difference", brier_desc(c), observed=res[1],
                  expected=[r["value"] for r in rows[1:]], tags=tags, theorem="brier_eq_mean_squared_difference")
         return False
@@ -373,12 +609,15 @@ def oracle(ctx, boost):
             for mem in ([0.5], [0.5, 0.5, NAN, 0.75], [NAN, NAN]):
                 cases.append({"fcst": [mem, list(reversed(mem))], "obs": [0.5, 0.25], "thr": [0.5], "scalar_thr": False, "op": op,
                               "fair": fair, "weights": None, "member_first": False, "malformed": None})
+    cases += gen_ens_probes(rng, ctx.n(120, 2000) * mult)
     spec = core.run_driver("C13S", [{"op": "c13.ensspec", "args": ens_args(c)} for c in cases])
     for c, s in zip(cases, spec):
         ctx.case("ensemble-vs-definition", ens_desc(c))
         ctx.tag("oracle-m:" + ens_tags(c)["m"])
+        if c.get("dtype"):
+            ctx.tag("oracle-ens-resolution-probe:" + c["dtype"] + (":decreasing-thresholds" if not thr_monotone(c["thr"]) else ""))
         oracle_ens_case(ctx, "ensemble-vs-definition", c, s)
-    bcs = [gen_brier_case(rng) for _ in range(ctx.n(200, 4000) * mult)]
+    bcs = [gen_brier_case(rng) for _ in range(ctx.n(200, 4000) * mult)] + gen_brier_probes(rng)
     ops, spans = [], []
     for c in bcs:
         o = brier_ops(c, "c13.brierspec")
@@ -389,6 +628,9 @@ def oracle(ctx, boost):
     rows = core.run_driver("C13S", ops)
     for c, (s, n) in zip(bcs, spans):
         ctx.case("brier-vs-definition", brier_desc(c))
+        if c.get("probe"):
+            ctx.tag("oracle-brier-boundary-probe:" + ("accepted" if rows[s]["accepted"] else "outside") + ":"
+                    + c["container"] + ":" + c["dtype"] + ":check=" + str(c["check"]))
         oracle_brier_case(ctx, "brier-vs-definition", c, rows[s:s + n])
 
 
